@@ -33,6 +33,14 @@ class GotranPythonCodePrinter(PythonCodePrinter):
     def _hprint_Pow(self, expr, rational=False, sqrt="numpy.sqrt"):
         return super()._hprint_Pow(expr, rational, sqrt)
 
+    def _print_Pow(self, expr, rational=False):
+        exp = expr.exp
+        if exp.is_number and exp.is_integer and exp.is_negative and exp != -1:
+            # numpy refuses to raise integers to negative integer powers, and integers
+            # do occur (e.g. numpy.where(cond, 1, 0)). Use a floating point exponent.
+            expr = sympy.Pow(expr.base, exp.evalf(), evaluate=False)
+        return super()._print_Pow(expr, rational=rational)
+
     def _print_MatrixElement(self, expr):
         if expr.parent.shape[1] == 1:
             # Then this is a column vector
